@@ -1,6 +1,6 @@
 CONSTANTS Jobs = {1,2,3} JCs = {1} MaxC <- MCMaxC1 MaxTime = 3 MaxLag = 3 MaxFaults = 2 MaxCrashes = 1 MaxTouch = 2
   StoreLag = FALSE AppliedFaults = FALSE StartAfters = {0,2,3} Owners = {0,1,1,1} Pols = {"Allow","Forbid","Enqueue"} Scheds = {FALSE, TRUE} WithJCSync = FALSE
-  Env = {"Touch","Delete","Remove"} D = 40
+  Env = {"Touch","Delete","Remove","Postpone"} D = 40
 SPECIFICATION SSpec
 INVARIANT EmitDone
 CHECK_DEADLOCK FALSE
